@@ -173,6 +173,12 @@ func (pv *Prov) of(v ssa.Value, depth int, seen map[ssa.Value]bool) *Expr {
 			case *ssa.Global:
 				return &Expr{Op: "global", Val: v, Name: a.Pkg.Pkg.Name() + "." + a.Name(), Obj: a.Object(), Type: v.Type()}
 			case *ssa.FieldAddr:
+				// field of a spilled local (e.g. a value receiver) with a single whole-value store
+				if al, ok := a.X.(*ssa.Alloc); ok {
+					if st := singleStore(al); st != nil && st.Block().Dominates(v.Block()) {
+						return &Expr{Op: "field", Val: v, Name: fieldName(a.X.Type(), a.Field), Idx: a.Field, Args: []*Expr{rec(st.Val)}, Type: v.Type()}
+					}
+				}
 				return &Expr{Op: "field", Val: v, Name: fieldName(a.X.Type(), a.Field), Idx: a.Field, Args: []*Expr{rec(a.X)}, Type: v.Type()}
 			case *ssa.IndexAddr:
 				return &Expr{Op: "index", Val: v, Args: []*Expr{rec(a.X), rec(a.Index)}, Type: v.Type()}
@@ -264,6 +270,15 @@ func singleStore(a *ssa.Alloc) *ssa.Store {
 			}
 		case *ssa.UnOp:
 		case *ssa.DebugRef:
+		case *ssa.FieldAddr:
+			// only loads through the field address
+			for _, rr := range *r.Referrers() {
+				switch rr.(type) {
+				case *ssa.UnOp, *ssa.DebugRef:
+				default:
+					return nil
+				}
+			}
 		default:
 			return nil
 		}
@@ -339,8 +354,12 @@ func (pv *Prov) summary(f *ssa.Function) *Expr {
 			// no stores, no side-effecting instructions other than calls in the chain
 			pure := true
 			for _, in := range f.Blocks[0].Instrs {
-				switch in.(type) {
-				case *ssa.Store, *ssa.MapUpdate, *ssa.Send, *ssa.Go, *ssa.Defer, *ssa.Panic:
+				switch x := in.(type) {
+				case *ssa.Store:
+					if al, ok := x.Addr.(*ssa.Alloc); !ok || al.Heap {
+						pure = false
+					}
+				case *ssa.MapUpdate, *ssa.Send, *ssa.Go, *ssa.Defer, *ssa.Panic:
 					pure = false
 				}
 			}
